@@ -334,7 +334,7 @@ func genBinary(w *bufio.Writer, rng *rand.Rand, n int) {
 // ---------------------------------------------------------------------------------------------
 // generation
 
-var alphabet = []string{"task", " ", "\n", "\r", "\t", "a", "B", "_", "\"", "#", "(", ")", "{", "}", ",", "->", ":=", "{{", "}}", ".", "*", "ü", "\xff", "-", "task "}
+var alphabet = []string{"task", " ", "\n", "\r", "\t", "a", "B", "_", "\"", "#", "(", ")", "{", "}", ",", "->", ":=", "{{", "}}", ".", "*", "ü", "\xff", "-", "task ", "'"}
 
 func genAlpha(w *bufio.Writer, maxLen int) {
 	var rec func(cur string, n int)
@@ -351,7 +351,8 @@ func genAlpha(w *bufio.Writer, maxLen int) {
 }
 
 func genRandSymbols(w *bufio.Writer, rng *rand.Rand, n int) {
-	extra := []string{"x := \"v\"\n", "task t(", "\"s\"", ") -> ", "{\n  echo hi\n}\n", "# c\n", "é", "\r\n", "join(", "echo {{.X}}", " }", "}}}", "#\n", "\"\n", " ", " ", "\xe2\x82", "世", "x := y\n", "-> (", "\r\r\n", " \r}", "\r }"}
+	extra := []string{"x := \"v\"\n", "task t(", "\"s\"", ") -> ", "{\n  echo hi\n}\n", "# c\n", "é", "\r\n", "join(", "echo {{.X}}", " }", "}}}", "#\n", "\"\n", " ", " ", "\xe2\x82", "世", "x := y\n", "-> (", "\r\r\n", " \r}", "\r }",
+		"x := 'a", "\"b\"'\n", "'", "\xa0", "\x85", "\xc3", "à", "Å", "\xef\xbb\xbf", "`", "\\", "$", "\x00"}
 	all := append(append([]string{}, alphabet...), extra...)
 	for i := 0; i < n; i++ {
 		k := rng.Intn(14) + 1
@@ -433,7 +434,7 @@ func (g *layoutGen) hws() string {
 var identPool = []string{"a", "B", "x_y", "täsk", "_x", "default", "Ünï", "test", "atask", "tas", "ask", "clean", "世界", "a_task_b", "tasky", "SIZE", "ZIP_FILE", "Zz", "aZ", "abcdefghijklmnopqrstuvwxyz", "ABCDEFGHIJKLMNOPQRSTUVWXYZ", "ǅ", "ßẞ", "Ωmega", "дом", "אב", "aªb"}
 var strPool = []string{"", "x", "a b", "\nlead", "\n", "**/*.go", "ü/é.txt", "f.txt", " ", "./bin/main", "{{x}}", "a,b", "(x)", "#no", "->", "task", ":=", "}", "{", "a\tb", "*.x", " ", "é"}
 var cmdPool = []string{"echo a", "go test ./...", "echo {{.X}}", "a", "echo \"hi\"", "x -> y", "echo a:=b", "ls (a)", "echo {", "mkdir -p {{.BIN}}/x", "echo $HOME", "echo 'q' | wc -l", "task x", "echo a,b", "echo {{.A}}{{.B}}", "b  c", "echo a\tb", "x \t", "echo {{", "e }} f", "echo é{{.X}}", "echo a ", "b \r c", "c  ", "x}}", "#{{y", "écho x", "xy}}", "}}}", "-v"}
-var commentPool = []string{" hello", "x", " two words", "", " # inner", " task", "\ttabbed", " trailing  ", "  ", " ü", "task x() {}", " a := \"b\"", " cr\r", "\r", " ---- build ---- #", "##", " fixes issue #", "#", " x #\t"}
+var commentPool = []string{" voilà", " Å", " хх", " a comment that is rather long: it goes on and on, well past one hundred columns, word after word after word, to the end", " hello", "x", " two words", "", " # inner", " task", "\ttabbed", " trailing  ", "  ", " ü", "task x() {}", " a := \"b\"", " cr\r", "\r", " ---- build ---- #", "##", " fixes issue #", "#", " x #\t"}
 
 func (g *layoutGen) name() string { return identPool[g.rng.Intn(len(identPool))] }
 
@@ -788,6 +789,17 @@ func genRuneSweep(w *bufio.Writer, withExpect bool) {
 	}
 }
 
+// genByteSweep: every byte from 0x80 on, ALONE (not part of a valid UTF-8 sequence), in the positions where the lexer
+// skips whitespace, reads names, strings, comments and commands: a stray byte is never white space and never a letter
+func genByteSweep(w *bufio.Writer) {
+	for b := 0x80; b <= 0xff; b++ {
+		c := string([]byte{byte(b)})
+		for _, tmpl := range []string{"x := \"v\"%s\n", "task t(a%s) {}\n", "%stask t() {}\n", "# c%s\ntask t() {}\n", "task t()%s{%sgo%s}", "n%sm := \"%s\"\n", "task t() {\n    echo %s\n}\n", "x := \"v\"\n%s"} {
+			fmt.Fprintln(w, hx(strings.ReplaceAll(tmpl, "%s", c)))
+		}
+	}
+}
+
 func syntaxGen(w *bufio.Writer, a map[string]string) {
 	prop := a["prop"]
 	thorough := a["tier"] == "thorough"
@@ -807,6 +819,7 @@ func syntaxGen(w *bufio.Writer, a map[string]string) {
 		genSpecLayout(w, rng, 40000*scale, true, false)
 	case "C07", "C11", "C15":
 		genRuneSweep(w, false)
+		genByteSweep(w)
 		genAlpha(w, 3)
 		genSpecLayout(w, rng, 25000*scale, false, false)
 		genSpecLayout(w, rng, 8000*scale, false, true)
@@ -817,6 +830,7 @@ func syntaxGen(w *bufio.Writer, a map[string]string) {
 		genBinary(w, rng, 1200*scale)
 	default: // C16, C08 and anything else: the malformed stream dominates
 		genRuneSweep(w, false)
+		genByteSweep(w)
 		if thorough {
 			genAlpha(w, 5)
 		} else {
